@@ -4,7 +4,8 @@ from store_common import replay_store, run_store
 from seq_common import run_seq
 
 PROPERTY = 'C05'
-PROPS = ['SalsaVerif.Props.C05', 'SalsaVerif.Props.C05Engine']
+GEN = ['LogicVerify']
+PROPS = ['SalsaVerif.Props.C05', 'SalsaVerif.Props.C05Engine', 'SalsaVerif.Props.GenLogicVerify', 'SalsaVerif.Props.C05Bound']
 EXPLANATION = ('Theorems about the Lean model of the LRU policy (no duplicates, bound after eviction, the evicted ones are exactly the least '
                'recently used, capacity 0 disables, membership = used since enabled and not evicted) for every op sequence; the model is '
                'compared with the real `Lru` (salsa::plumbing::function::Lru) line by line. Engine level (model `Core3`, Props/C05Engine): '
